@@ -74,7 +74,7 @@ extern "C" void sbv_harness(const char*)
     pool_t     pool(g_workers);
     sbv_check(pool.size() == g_workers, "pool reports K workers");
 
-    constexpr int CAP = 16;
+    constexpr int CAP = 96;
     long          begins[CAP], ends[CAP], tnums[CAP];
     long          calls = 0;
 
